@@ -119,7 +119,7 @@ Section drop.
   (* exit of a frame that is not recorded: watch at the exit hook, then the invalidation *)
   Lemma d_leave_filtered s X a t0 r d t1 o1 anc dd :
     stack s = nf sh false a t0 r d :: anc -> fc s = fcd dd -> enabled s = true ->
-    t0 <= t1 -> t1 < 18446744073709551616 -> (thr <? t1 - t0) = false ->
+    t0 <= t1 -> t1 < 18446744073709551616 -> (thr <=? t1 - t0) = false ->
     x_leave C s X t1 o1 =
     let X1 := x_watch C (set_end (nf sh false a t0 r d) t1) (N.of_nat (length anc)) o1 (set_xs X (tl (xs X))) in
     set_pend X1 (invalidate (N.of_nat (length anc)) (pend X1)).
@@ -231,7 +231,7 @@ Section drop.
       assert (Hi : idx s < ms) by lia.
       cbn [strip recs] in HR. assert (EL : (gd <=? d) = false) by (apply N.leb_gt; exact Hin). rewrite EL in HR.
       set (Rk := flat_map (recs thr gd (d + 1)) (map strip kids)) in *.
-      destruct ((thr <? t1 - t0) || negb (is_nil Rk)) eqn:Dec; [discriminate|].
+      destruct ((thr <=? t1 - t0) || negb (is_nil Rk)) eqn:Dec; [discriminate|].
       apply orb_false_iff in Dec. destruct Dec as [Dthr Dn]. apply negb_false_iff in Dn.
       assert (KB : Rk = []) by (destruct Rk; [reflexivity|discriminate]).
       pose proof (enter_in thr gd ms sh s d a t0 Hfc Hen Hin Hi) as EI. fold c in EI. rewrite EI.
